@@ -17,6 +17,8 @@ package parallel
 import (
 	"runtime"
 	"sync"
+
+	"github.com/crate-crypto/go-ipa/common/verifhook"
 )
 
 // Execute process in parallel the work function
@@ -49,6 +51,7 @@ func Execute(nbIterations int, work func(int, int), maxCpus ...int) {
 			extraTasksOffset++
 		}
 		go func() {
+			verifhook.Point("parallel.task.start", _start)
 			work(_start, _end)
 			wg.Done()
 		}()
